@@ -247,3 +247,106 @@ Section SrcNbhd.
     split; [apply src_nbhd_model|]. split; [apply nbhd_NoDup|]. intros d. apply nbhd_is_ball.
   Qed.
 End SrcNbhd.
+
+(* ------------------------------------------------------------------ Network *)
+Lemma net_connect_bridge nbrs : gen_net_connect nbrs = map (fun v => (v, v)) nbrs.
+Proof.
+  unfold gen_net_connect. induction nbrs as [|v t IH]; simpl; [reflexivity|]. rewrite IH. reflexivity.
+Qed.
+
+(* connections of node u as the translated _connect_single_cell builds them from G.neighbors(u) *)
+Lemma net_conn_of_source edges u k v :
+  In (k, v) (gen_net_connect (net_adj edges u)) <-> k = v /\ (In (u, v) edges \/ In (v, u) edges).
+Proof.
+  rewrite net_connect_bridge, in_map_iff. split.
+  - intros [w [E Hw]]. inversion E; subst. split; [reflexivity|]. apply net_adj_In. exact Hw.
+  - intros [-> H]. exists v. split; [reflexivity|]. apply net_adj_In. exact H.
+Qed.
+
+(* directed graphs (outside the statement's quantifier): neighbours = successors *)
+Lemma dnet_adj_In edges u v : In v (dnet_adj edges u) <-> In (u, v) edges.
+Proof.
+  unfold dnet_adj. rewrite zdedup_In, in_flat_map. split.
+  - intros [[a b] [He Hv]]. simpl in Hv. destruct (a =? u) eqn:E; [|destruct Hv].
+    apply Z.eqb_eq in E. destruct Hv as [<-|[]]. subst. exact He.
+  - intros H. exists (u, v). split; [exact H|]. simpl. rewrite Z.eqb_refl. left. reflexivity.
+Qed.
+
+Lemma dnet_conn_of_source edges u k v :
+  In (k, v) (gen_net_connect (dnet_adj edges u)) <-> k = v /\ In (u, v) edges.
+Proof.
+  rewrite net_connect_bridge, in_map_iff. split.
+  - intros [w [E Hw]]. inversion E; subst. split; [reflexivity|]. apply dnet_adj_In. exact Hw.
+  - intros [-> H]. exists v. split; [reflexivity|]. apply dnet_adj_In. exact H.
+Qed.
+
+(* the boundary of the statement: on a directed graph connection is symmetric exactly when the edge set is *)
+Lemma dnet_symmetric_iff edges :
+  (forall u v, In v (dnet_adj edges u) -> In u (dnet_adj edges v)) <->
+  (forall u v, In (u, v) edges -> In (v, u) edges).
+Proof.
+  split; intros H u v Huv.
+  - apply dnet_adj_In. apply H. apply dnet_adj_In. exact Huv.
+  - apply dnet_adj_In. apply H. apply dnet_adj_In. exact Huv.
+Qed.
+
+Lemma dnet_asymmetric_witness :
+  exists edges u v, In v (dnet_adj edges u) /\ ~ In u (dnet_adj edges v) /\
+    In v (nbhd (dnet_adj edges) 0 false u) /\ ~ In u (nbhd (dnet_adj edges) 5 false v).
+Proof.
+  exists [(0, 1)], 0, 1. vm_compute. repeat split; auto; intros H; repeat (destruct H as [H|H]; try discriminate); auto.
+Qed.
+
+(* ------------------------------------------------------------------ VoronoiGrid._connect_cells, end to end *)
+Lemma existsb_flat_map_in {A B} (p : B -> bool) (f : A -> list B) l t :
+  In t l -> existsb p (f t) = true -> existsb p (flat_map f l) = true.
+Proof.
+  intros Hin He. apply existsb_exists in He. destruct He as [x [Hx Hp]].
+  apply existsb_exists. exists x. split; [|exact Hp]. apply in_flat_map. exists t. auto.
+Qed.
+
+(* bridge to the model's edge function: an edge of an exported triangle is connected by the translated first loop *)
+Lemma vor_loop1_bridge exported full i j :
+  tri_adj exported i j = true -> vor_emitted (gen_vor_connect exported full) i j = true.
+Proof.
+  intros H. apply tri_adj_spec in H. destruct H as [[[a b] c] [z [Ht Hp]]].
+  unfold vor_emitted, gen_vor_connect. rewrite existsb_app. apply orb_true_iff. left.
+  apply (existsb_flat_map_in _ _ _ (a, b, c) Ht).
+  unfold comb2. cbn [flat_map app fst snd existsb].
+  simpl in Hp.
+  destruct Hp as [E|[E|[E|[E|[E|[E|[]]]]]]]; inversion E; subst;
+    rewrite ?Z.eqb_refl; cbn [andb orb]; rewrite ?orb_true_r; reflexivity.
+Qed.
+
+Lemma vor_entry_ok_spec pts x k1 k2 y :
+  vor_entry_ok pts (x, ((k1, k2), y)) = true ->
+  In x (idxs pts) /\ In y (idxs pts) /\ k1 = x /\ k2 = y /\ delaunay_adj pts x y = true.
+Proof.
+  unfold vor_entry_ok. rewrite !andb_true_iff, !Z.eqb_eq. intros [[[[H1 H2] H3] H4] H5].
+  repeat split; try assumption; apply in_range_In; assumption.
+Qed.
+
+(* certificate-checked triangulation + translated extraction = the Delaunay adjacency, with keys (i, j) *)
+Lemma voronoi_connections_of_source pts full : vor_conn_cert pts full = true ->
+  let conns := gen_vor_connect (gen_vor_export full) full in
+  (forall i j, In i (idxs pts) -> In j (idxs pts) ->
+     (vor_emitted conns i j = true <-> delaunay_adj pts i j = true)) /\
+  (forall x k1 k2 y, In (x, ((k1, k2), y)) conns ->
+     In x (idxs pts) /\ In y (idxs pts) /\ k1 = x /\ k2 = y).
+Proof.
+  unfold vor_conn_cert. cbv zeta. rewrite !andb_true_iff. intros [[Hc Hall] H2]. rewrite forallb_forall in Hall. split.
+  - intros i j Hi Hj. split.
+    + intros He. unfold vor_emitted in He. apply existsb_exists in He.
+      destruct He as [[x [[k1 k2] y]] [Hin Hxy]]. cbn [fst snd] in Hxy. apply andb_true_iff in Hxy.
+      destruct Hxy as [E1 E2]. apply Z.eqb_eq in E1, E2. subst.
+      apply Hall in Hin. apply vor_entry_ok_spec in Hin. tauto.
+    + intros Hd. destruct (Z.of_nat (length pts) =? 2) eqn:E2.
+      * apply Z.eqb_eq in E2. apply andb_true_iff in H2. destruct H2 as [A B].
+        apply idxs_In in Hi. apply idxs_In in Hj.
+        assert (i <> j) by (unfold delaunay_adj in Hd; apply andb_true_iff in Hd; destruct Hd as [Hd _];
+                            apply negb_true_iff, Z.eqb_neq in Hd; exact Hd).
+        assert ((i = 0 /\ j = 1) \/ (i = 1 /\ j = 0)) as [[-> ->]|[-> ->]] by lia; assumption.
+      * apply Z.eqb_neq in E2. apply vor_loop1_bridge.
+        rewrite (cert_delaunay pts _ Hc E2 i j Hi Hj). exact Hd.
+  - intros x k1 k2 y Hin. apply Hall in Hin. apply vor_entry_ok_spec in Hin. tauto.
+Qed.
